@@ -338,9 +338,10 @@ PROPS['C12'] = dict(
 
 PROPS['C15'] = dict(
     codec=[('reader', 600, 10000)],
+    sess=[('py_c15s', 320, 3200)],
     twins=[('py_c15', 250, 4000)],
     events='', state=['ret', 'ctl', 'rel', 'srv', 'quota', 'h', 'conn', 'live', 'rb', 'pl', 'pid', 'gen'],
-    monitors=[M.mon_panic],
+    monitors=[M.mon_c15_stream, M.mon_panic],
     twin_monitors=[M.twin_c15],
     title='behaviour does not depend on how the transport fragments reads and writes',
     claim='Proved in Coq for every stream and every fragmentation (no bound on lengths): the packet reader, driven by a transport '
